@@ -34,7 +34,7 @@ def run(ctx):
     if res.exit == 0 or "NoRedo" not in (res.violated or ""):
         raise core.MachineryError("sensitivity guard: Analysis_writealways.cfg must violate NoRedo (got exit %s, %s)"
                                   % (res.exit, res.violated))
-    recs = ctx.export("Analysis", "Analysis_export.cfg", min_records=300)
+    recs = ctx.export("Analysis", "Analysis_export.cfg", min_records=600)
     if ctx.thorough:
         recs = recs + ctx.export("Analysis", "Analysis_export3.cfg", min_records=300)
 
@@ -63,7 +63,7 @@ def run(ctx):
         for key in sorted(found):
             ctx.violation(key, found[key][1])
         for rec in recs:
-            ctx.case(["history", rec["brs"], rec["bs"], [(r["data"], r["tpl"]) for r in rec["runs"]]],
+            ctx.case(["history", rec["brs"], rec["bs"], rec["cache"], [(r["src"], r["tpl"]) for r in rec["runs"]]],
                      nontrivial=True, traces=1)
         ctx.sample({"spec_history": recs[len(recs) // 2]})
 
@@ -77,10 +77,9 @@ def run(ctx):
             trace.extend(hist)
     finally:
         shutil.rmtree(scratch, ignore_errors=True)
-    for r in trace:
-        r.pop("pulled", None)
     ctx.trace_check("Trace_Analysis", "Trace_Analysis.cfg", trace,
-                    lambda r: "%s:%s" % ("first-run" if r["first"] else "rerun", al.shape(r["brs"], r["bs"])))
+                    lambda r: "%s:%s%s" % ("first-run" if r["first"] else "rerun", al.shape(r["brs"], r["bs"]),
+                                           ":cache" if r["usecache"] else ""))
 
     def corrupt(r):
         if not r["wrote"]:
